@@ -24,7 +24,7 @@ META = dict(
     bounds=dict(quick=dict(nice="any int", ionice="class in [-1,5] (or None), level in [-2,9] (or None)", cpus=f"{NCPU} CPUs, symbolic allowed mask, symbolic request incl. duplicates and out-of-range", rlimit="resource index 0..15, soft/hard in [-1, 2^63], limits tuple length 0..3"),
                 thorough=dict(nice="any int", ionice="as quick", cpus="as quick", rlimit="as quick")),
     outside=["more than 6 CPUs", "the C-level packing of the I/O priority word (decided by the cir harness of C17 when present)"],
-    labels=["nice-roundtrip", "ionice-roundtrip", "ionice-invalid-ValueError", "affinity-roundtrip", "affinity-empty-selects-all-eligible", "affinity-invalid-ValueError", "rlimit-roundtrip", "rlimit-not-a-pair-ValueError", "bystander-untouched"],
+    labels=["nice-roundtrip", "ionice-roundtrip", "ionice-invalid-ValueError", "affinity-roundtrip", "affinity-empty-selects-all-eligible", "affinity-invalid-ValueError", "rlimit-roundtrip", "rlimit-not-a-pair-ValueError", "bystander-untouched", "after-fork-targets-the-named-process"],
 )
 
 
@@ -224,3 +224,66 @@ def rlimit(ctx, n):
         else:
             ctx.prove(isinstance(exc, ValueError) and same(ctx, snapshot(k, P), before_p), "rlimit-not-a-pair-ValueError", detail=f"{n} values: {exc!r}")
     ctx.prove(same(ctx, snapshot(k, Q), before_q), "bystander-untouched")
+
+
+def _linux_imported_by(pid):
+    """a second copy of the package, imported from /repo under an alias while os.getpid() answers `pid`: the package as process
+    `pid` imported it (module-level state computed at import belongs to that process)"""
+    import sys
+
+    from psv import plat
+
+    alias = f"psv_linux_imported_by_{pid}"
+    if alias in plat._LOADED:
+        return plat._LOADED[alias][0]
+    import psutil._psutil_linux as real_linux
+    import psutil._psutil_posix as real_posix
+
+    def pre(mods, lab):
+        sys.modules[f"{alias}._psutil_linux"] = real_linux
+        sys.modules[f"{alias}._psutil_posix"] = real_posix
+
+    pkg, _, _ = plat.load(alias, sys.platform, (), "posix", pre, patch_getpid=pid)
+    return pkg
+
+
+@harness("C18.after_fork", quick=[dict(what=w) for w in ("nice", "ionice", "cpu_affinity", "rlimit")])
+def after_fork(ctx, what):
+    """the package was imported by process P; the code now runs in a forked child (another PID) and addresses P -- its parent --
+    through a Process object: get reads P's setting and set changes P's, the caller's own settings are neither read nor touched"""
+    pkg = _linux_imported_by(P)
+    k = world(ctx)
+    CALLER = 4242
+    simk.full_process(k, CALLER, ppid=P)
+    k.settings[CALLER] = dict(nice=-7, ioprio=(1, 1), affinity=[2], rlimits={r: (7, 8) for r in RES}, allowed=list(range(NCPU)))
+    k.dirs["/proc"] = sorted(set(k.dirs.get("/proc", [])) | {str(CALLER)})
+    with k.installed(pkg=pkg):
+        assert k.os_proxy.getpid() == CALLER
+        p = pkg.Process(P)
+        mine = snapshot(k, CALLER)
+        if what == "nice":
+            v = ctx.int("value", -20, 19)
+            g0 = p.nice()
+            ctx.prove(ctx.eq(g0, k.settings[P]["nice"]), "after-fork-targets-the-named-process", detail=f"nice() -> {g0}")
+            ctx.guard("after-fork-targets-the-named-process", p.nice, v)
+            ctx.prove(ctx.all([ctx.eq(k.settings[P]["nice"], v), ctx.eq(p.nice(), v)]), "after-fork-targets-the-named-process", detail="nice(set)")
+        elif what == "ionice":
+            lvl = ctx.int("level", 0, 7)
+            g0 = p.ionice()
+            ctx.prove((int(g0.ioclass), g0.value) == tuple(k.settings[P]["ioprio"]), "after-fork-targets-the-named-process", detail=f"ionice() -> {g0}")
+            ctx.guard("after-fork-targets-the-named-process", p.ionice, pkg.IOPRIO_CLASS_BE, lvl)
+            ctx.prove(same(ctx, tuple(k.settings[P]["ioprio"]), (2, lvl)), "after-fork-targets-the-named-process", detail="ionice(set)")
+        elif what == "cpu_affinity":
+            want = ctx.choice("cpus", [[0], [1, 3], [0, 1, 2, 3]])
+            g0 = p.cpu_affinity()
+            ctx.prove(g0 == list(k.settings[P]["affinity"]), "after-fork-targets-the-named-process", detail=f"cpu_affinity() -> {g0}")
+            ctx.guard("after-fork-targets-the-named-process", p.cpu_affinity, want)
+            ctx.prove(sorted(k.settings[P]["affinity"]) == want and p.cpu_affinity() == want, "after-fork-targets-the-named-process", detail="cpu_affinity(set)")
+        else:
+            res = ctx.choice("resource", RES)
+            soft = ctx.int("soft", 0, 2**40)
+            g0 = p.rlimit(res)
+            ctx.prove(tuple(g0) == (1024, 4096), "after-fork-targets-the-named-process", detail=f"rlimit({res}) -> {g0}, the caller's own limits are (7, 8)")
+            ctx.guard("after-fork-targets-the-named-process", p.rlimit, res, (soft, 2**41))
+            ctx.prove(same(ctx, tuple(k.settings[P]["rlimits"].get(res, ())), (soft, 2**41)) and same(ctx, tuple(p.rlimit(res)), (soft, 2**41)), "after-fork-targets-the-named-process", detail="rlimit(set)")
+        ctx.prove(same(ctx, snapshot(k, CALLER), mine), "after-fork-targets-the-named-process", detail="the calling process's own settings changed")
